@@ -351,7 +351,9 @@ def shard(ctx):
                 vs.append(rng.choice(VERTS))
             for v in set(vs):
                 v = ('A%d' % fo,) + v[1:]
-                g.setdefault(f, {}).setdefault(lin, {})[v] = rng.randint(1, 3)
+                # a count of 0 (a grammar file may say C:0) is a count too
+                g.setdefault(f, {}).setdefault(lin, {})[v] = \
+                    rng.choice([1, 2, 3, 1, 2, 3, 0])
         ms = [None] + [modes[rng.randrange(1, len(modes))]
                        for _ in range(ctx.pick(8, 16))]
         run_grammar(ctx, g, ms, {'kind': 'grammar', 'grammar': freeze(g)})
